@@ -201,6 +201,26 @@ func SketchMapping(lo, hi float64) *rapid.Generator[MapSpec] {
 		}
 		g, o := GammaOf(m)
 		off := rapid.SampledFrom([]float64{0, o, 0.5, -0.5, 1, -1, 7.25, -1000.75, 1e6, -1e6}).Draw(t, "offset")
+		if rapid.IntRange(0, 3).Draw(t, "engineered") == 0 {
+			// offset engineered so that (i0 - offset)/multiplier is an integer k or a float neighbour of it (see C03)
+			mult := 1 / math.Log2(g)
+			if s.Kind == "log" {
+				mult = 1 / math.Log(g)
+			}
+			k := float64(rapid.IntRange(-3, 3).Draw(t, "engk"))
+			tgt := NextUp(k, rapid.IntRange(-2, 2).Draw(t, "engulps"))
+			if k == 0 {
+				tgt = rapid.SampledFrom([]float64{0, 5e-324, -5e-324, 0x1p-53, -0x1p-53, 1e-17, -1e-17}).Draw(t, "engzero")
+			}
+			d := tgt * mult
+			for _, c := range []float64{d, NextUp(d, 1), NextUp(d, -1), NextUp(d, 2), NextUp(d, -2)} {
+				if c/mult == tgt {
+					d = c
+					break
+				}
+			}
+			off = float64(rapid.SampledFrom([]int{0, 0, 1, -300}).Draw(t, "engi0")) - d
+		}
 		return MapSpec{Kind: s.Kind, Gamma: g, Offset: off, Nominal: s.Alpha}
 	})
 }
@@ -366,4 +386,22 @@ func ClampPos(m mapping.IndexMapping, v float64) float64 {
 		return m.MaxIndexableValue()
 	}
 	return v
+}
+
+// HintIndexes returns indexes i (among a few candidates) for which (i - offset)/multiplier is within 1e-12 of an
+// integer: bins at the boundary between two binades of the interpolated mappings, worth probing on purpose.
+func HintIndexes(m mapping.IndexMapping) []int {
+	g, o := GammaOf(m)
+	mult := 1 / math.Log2(g)
+	if KindOf(m) == "log" {
+		mult = 1 / math.Log(g)
+	}
+	var out []int
+	for _, i := range []int{0, 1, -300} {
+		x := (float64(i) - o) / mult
+		if math.Abs(x-math.Round(x)) < 1e-12 && math.Abs(x) < 1000 {
+			out = append(out, i-1, i)
+		}
+	}
+	return out
 }
